@@ -946,7 +946,24 @@ LONG_NAME_DOCS = [
     '<schema keytype="identifier"><key name="%s"/><multikey name="%s2"/>'
     '</schema>' % (_L, _L),
 ]
-OBJECT_PATH_DOCS = OBJECT_PATH_DOCS + LONG_NAME_DOCS
+# a section type's own prefix is in force for the element's own attributes
+# too (wrap_a, kt, key_lower, rev exist below the prefix only)
+OWN_PREFIX_DOCS = [
+    '<schema prefix="zcverif_dt"><sectiontype name="t" prefix=".p1" '
+    'datatype=".wrap_a"><key name="a"/></sectiontype>'
+    '<section type="t" name="*" attribute="t"/></schema>',
+    '<schema prefix="zcverif_dt"><sectiontype name="t" prefix=".p1" '
+    'keytype=".kt"><key name="a" datatype=".conv"/></sectiontype></schema>',
+    '<schema prefix="zcverif_dt.p1"><sectiontype name="t" prefix=".p2" '
+    'keytype=".key_lower" datatype="zcverif_dt.p1.wrap_a">'
+    '<key name="a" datatype=".rev"/></sectiontype>'
+    '<sectiontype name="u" extends="t" prefix="zcverif_dt.p1" '
+    'datatype=".wrap_a"/></schema>',
+    '<schema><sectiontype name="t" prefix="zcverif_dt.p1" datatype=".wrap_a" '
+    'keytype=".p2.key_lower"/><multisection type="t" name="+" '
+    'attribute="ts"/></schema>',
+]
+OBJECT_PATH_DOCS = OBJECT_PATH_DOCS + LONG_NAME_DOCS + OWN_PREFIX_DOCS
 
 
 def run_object_paths(ctx):
